@@ -21,6 +21,9 @@ func scaleCases(tier string) []scalekit.Case {
 	for _, n := range scale.Sizes(70, 257) {
 		out = append(out, scalekit.Case{Shape: "identity-chain", N: n}, scalekit.Case{Shape: "identity-chain-cycle", N: n}, scalekit.Case{Shape: "identity-fan", N: n})
 	}
+	for _, n := range scale.Sizes(40, 129) {
+		out = append(out, scalekit.Case{Shape: "many-module-identities", N: n}, scalekit.Case{Shape: "many-bases", N: n})
+	}
 	maxK := 7
 	if tier == "thorough" {
 		maxK = 8
@@ -84,6 +87,24 @@ func checkScale(cs scalekit.Case) scalekit.Verdict {
 		}
 		want["root"] = sorted(all)
 		want["d0"] = ""
+	case "many-module-identities":
+		files = scale.ManyModuleIdentities(cs.N)
+		var all []string
+		for i := 0; i <= cs.N; i++ {
+			all = append(all, fmt.Sprintf("id%d", i))
+		}
+		want["root"] = sorted(append([]string{}, all...))
+		want["id0"] = sorted(append([]string{}, all[1:]...))
+		want[fmt.Sprintf("id%d", cs.N)] = ""
+		if cs.N > 1 {
+			want[fmt.Sprintf("id%d", cs.N/2)] = sorted(append([]string{}, all[cs.N/2+1:]...))
+		}
+	case "many-bases":
+		files = []dump.File{scale.Counts(cs.N)}
+		for i := 0; i < cs.N; i++ {
+			want[fmt.Sprintf("b%d", i)] = "all"
+		}
+		want["all"] = ""
 	case "include-tree":
 		i := 0
 		var all []string
@@ -126,7 +147,14 @@ func checkScale(cs scalekit.Case) scalekit.Verdict {
 					return scalekit.Bad("values-differ-from-reverse-reachability", id+": "+w, fmt.Sprintf("%s (Process call %d)", got, round+1))
 				}
 			}
-			r := yang.ToEntry(ms.Modules["m"]).Dir["r"]
+			if cs.Shape == "many-bases" {
+				continue
+			}
+			rm := ms.Modules["m"]
+			if cs.Shape == "many-module-identities" {
+				rm = ms.Modules["m0"]
+			}
+			r := yang.ToEntry(rm).Dir["r"]
 			if r == nil || r.Type == nil || r.Type.IdentityBase == nil {
 				return scalekit.Bad("identityref-without-base", "root", "nil")
 			}
